@@ -60,13 +60,13 @@ def data_module(d):
 _LAMBDA_ID = re.compile(r"(?:_lambda_|VAR_LOOP|_)[0-9a-f]{32}")
 
 
-def code_shape(text):
+def code_shape(text, dict_compress=True):
     """the emitted Python with every constant abstracted (and the random lambda ids numbered in
     order of appearance): what a literal payload may NOT change"""
     from vyxal.transpile import transpile
 
     try:
-        code = transpile(text)
+        code = transpile(text, dict_compress)
     except RecursionError:
         return "transpile-raised:RecursionError"
     except Exception as e:  # noqa: BLE001
@@ -97,7 +97,8 @@ def observe(case):
     _, tb, eb = project.parse_text(b)
     return {"op": "lit", "a": cps(a), "b": cps(b),
             "ta": ta or [], "tb": tb or [], "ea": ea or "", "eb": eb or "",
-            "ca": code_shape(a), "cb": code_shape(b)}
+            # with dictionary compression on, and off (flag D)
+            "ca": code_shape(a) + "/" + code_shape(a, False), "cb": code_shape(b) + "/" + code_shape(b, False)}
 
 
 # contexts in which the literal is the LAST thing of the program, so that it may be left unclosed
@@ -111,7 +112,7 @@ def open_literal(kind, p):
 
 def cases(tier, rng, d):
     out = []
-    alpha = d["payload_alphabet"]
+    alpha = d["payload_alphabet"] + d.get("lexer_alphabet", "")
     hole = d["hole"]
     full2 = set(range(len(d["contexts"]))) if tier == "thorough" else set(range(0, len(d["contexts"]), 5))
     for ci, ctx in enumerate(d["contexts"]):
@@ -181,6 +182,10 @@ def main(tier):
         key = v.split(":")[0]
         tally[v] = tally.get(v, 0) + 1
         if key == "violation":
+            if v == "violation:payload-changes-emitted-code" and "\\x" in meta["payload"] and meta["kind"] in ("string", "twochar"):
+                # the payload spells a truncated Python \x escape: the recorded defect of the string lowering (C02)
+                V.add("py-escape:\\x", {"program": a, "neutral": b, **meta, "verdict": v})
+                continue
             V.add(f"lit:{meta['kind']}:{meta['payload']!r}:in:{meta['ctx']!r}",
                   {"program": a, "neutral": b, **meta, "verdict": v})
         elif key in ("drift", "specviolation") or v == "skip:spec-shapes-differ":
